@@ -181,6 +181,11 @@ def normalise_trace(ops, roots=()):
             if p == r or p.startswith(r + "/"):
                 p = "$R%d" % i + p[len(r):]
                 break
+        # whatever a scratch file in the harness TMPDIR ($R1) is called, it is "the n-th scratch file"
+        if p.startswith("$R1/") and "TMP#" not in p:
+            if p not in names:
+                names[p] = "$R1/TMP#%d" % len(names)
+            p = names[p]
         return p
     for o in ops:
         if o.op == "signal" or o.note.startswith("KILLED"):
